@@ -13,7 +13,7 @@ use proptest::test_runner::{Config, RngSeed, TestRunner};
 use serde_json::json;
 use std::sync::{Arc, Barrier};
 
-pub const RULE: &str = "generated: a corpus of N requests (valid ones from the completeness generator on both carriers with all options, and defective ones from the C13 catalogue) with their configurations. The OUTCOME of one validation is (Ok | error kind, code, status; returned method, version, URI, headers, body; principal) -- messages are deliberately excluded, divergences in them are only counted. Oracle: outcome digests are equal (i) across 3 repetitions on one thread, (ii) across T in {2,4,8,16} threads released together on a barrier, each validating a different rotation of the corpus concurrently, (iii) in freshly spawned processes (fresh hash seeds) whose 16 threads start COLD, so their first validations race on the lazily initialised global regexes, and (iv) equal to the reference model's verdict where specified. Limit: the thread schedule is the OS's, sampled not enumerated. Non-trivial: a request with >= 3 query parameters or >= 3 signed headers or >= 2 prefix-matching unsigned headers; distinct by request digest.";
+pub const RULE: &str = "generated: a corpus of N requests (valid ones from the completeness generator on both carriers with all options, and defective ones from the C13 catalogue) with their configurations. The OUTCOME of one validation is (Ok | error kind, code, status; returned method, version, URI, headers, body; principal) -- messages are deliberately excluded, divergences in them are only counted. Oracle: outcome digests are equal (i) across 3 repetitions on one thread, (ii) across T in {2,4,8,16} threads released together on a barrier, each validating a different rotation of the corpus concurrently, (iii) in freshly spawned processes (fresh hash seeds) whose 16 threads start COLD, so their first validations race on the lazily initialised global regexes, and (iv) equal to the reference model's verdict where specified. (v) history independence on one thread: a request followed by up to six close relatives (one of 17 ingredients changed -- server region/service/clock/options, secret, token, access key, time, spelling, query, header, body, path, method, requirement; signed anew, or presented with the previous signature), each judged by the reference model; a disagreement that vanishes on a fresh thread is reported as history-dependent. Limit: the thread schedule is the OS's, sampled not enumerated. Non-trivial: a request with >= 3 query parameters or >= 3 signed headers or >= 2 prefix-matching unsigned headers; distinct by request digest.";
 
 pub fn subs() -> Vec<Box<dyn AnySub>> {
     vec![Box::new(Sub {
@@ -21,18 +21,221 @@ pub fn subs() -> Vec<Box<dyn AnySub>> {
         quick: 6_000,
         thorough: 100_000,
         strat: || {
-            (proptest::collection::vec(super::c14::step(), 2..5), proptest::collection::vec(0u8..8, 1..24))
+            (proptest::collection::vec(super::c14::step(), 2..5), proptest::collection::vec(prop_oneof![12 => 0u8..8, 1 => 8u8..12], 1..24))
                 .prop_map(|(steps, order)| Interleave { steps, order })
                 .boxed()
         },
         check: check_interleave,
+    }),
+    // History independence on one thread: a request, then close relatives of it (one ingredient changed, signed
+    // anew or presented with the previous signature, or the very same bytes under another configuration), each
+    // judged by the reference model. Whatever an implementation remembers from one validation to the next, it
+    // must not change any verdict.
+    Box::new(Sub {
+        name: "siblings-in-sequence",
+        quick: 12_000,
+        thorough: 200_000,
+        strat: || {
+            (plan(PlanOpts::default()), proptest::collection::vec((0u8..18, any::<u16>(), any::<bool>()), 1..7))
+                .prop_map(|(plan, steps)| Siblings { plan, steps })
+                .boxed()
+        },
+        check: check_siblings,
     })]
+}
+
+#[derive(Clone, Debug, serde::Serialize, serde::Deserialize)]
+pub struct Siblings {
+    pub plan: Plan,
+    /// (what changes, selector, sign anew?)
+    pub steps: Vec<(u8, u16, bool)>,
+}
+
+/// One ingredient of the plan changed; None where the change does not apply.
+fn vary(p: &Plan, kind: u8, x: u16) -> Option<(Plan, &'static str)> {
+    let mut q = p.clone();
+    let name = match kind {
+        0 => {
+            q.cfg.region = REGIONS[pick_idx(x, REGIONS.len())].to_string();
+            "server-region"
+        }
+        1 => {
+            q.cfg.service = SERVICES[pick_idx(x, SERVICES.len())].to_string();
+            "server-service"
+        }
+        2 => {
+            std::mem::swap(&mut q.cfg.region, &mut q.cfg.service);
+            "region-and-service-exchanged"
+        }
+        3 => {
+            let mut sc: Vec<char> = p.spec.secret.chars().collect();
+            let n = sc.len();
+            if n > 0 && (x % 2 == 0 || p.spec.secret.len() >= 40) {
+                let i = if x % 4 == 0 { 0 } else { n - 1 };
+                sc[i] = if sc[i] == 'x' { 'y' } else { 'x' };
+            } else {
+                sc.push('x');
+            }
+            q.spec.secret = sc.into_iter().collect();
+            q.entry.secret = q.spec.secret.clone();
+            "secret"
+        }
+        4 => {
+            let t = match (&p.spec.token, x % 3) {
+                (Some(_), 0) => None,
+                (Some(t), _) => Some(format!("{}x", t)),
+                (None, _) => Some("tok/en+2==".to_string()),
+            };
+            if p.spec.carrier == Carrier::Header && p.spec.signed_headers.iter().any(|h| h == "x-amz-security-token") && t.is_none() {
+                return None;
+            }
+            q.spec.token = t.clone();
+            q.entry.token = t;
+            "token"
+        }
+        5 => {
+            let d = [1i128, -1, 60, 3600, 86_400][x as usize % 5] * 1_000_000_000;
+            let (i, st) = (p.instant.add_nanos(d), p.style);
+            if !(2..=9998).contains(&i.year()) {
+                return None;
+            }
+            q = q.with_time(i, st);
+            "request-time"
+        }
+        6 => {
+            q.cfg.s3 = !p.cfg.s3;
+            "s3-option"
+        }
+        7 => {
+            q.cfg.fold = !p.cfg.fold;
+            "fold-option"
+        }
+        8 => {
+            q.spelling = Spelling { version: 11, ..Spelling::default() };
+            if q.spelling == p.spelling {
+                return None;
+            }
+            "wire-spelling"
+        }
+        9 => {
+            match q.logical.query.first_mut() {
+                Some((_, v)) if x % 2 == 0 => v.0.push(b'x'),
+                _ => q.logical.query.push((B::from("added"), B::from("1"))),
+            }
+            "query"
+        }
+        10 => {
+            let n = q.logical.headers.len();
+            if n < 2 {
+                return None;
+            }
+            let i = 1 + pick_idx(x, n - 1);
+            match q.logical.headers[i].1.first_mut() {
+                Some(v) => v.0.push(b'x'),
+                None => return None,
+            }
+            "header-value"
+        }
+        11 => {
+            if p.form.is_some() {
+                return None;
+            }
+            q.logical.body.0.push(b'x');
+            "body"
+        }
+        12 => {
+            q.cfg.now = p.cfg.now.add_nanos([86_400i128, -86_400, 901, -901][x as usize % 4] * 1_000_000_000);
+            if !(2..=9998).contains(&q.cfg.now.year()) {
+                return None;
+            }
+            "server-clock"
+        }
+        13 => {
+            q.spec.access_key = format!("{}X", p.spec.access_key);
+            q.entry.access_key = q.spec.access_key.clone();
+            "access-key"
+        }
+        14 => {
+            q.logical.segments.push(B::from("sub"));
+            "path"
+        }
+        15 => {
+            q.logical.method = if p.logical.method == "GET" { "POST".into() } else { "GET".into() };
+            "method"
+        }
+        16 => {
+            q.cfg.reqs.always.push("X-Newly-Required".into());
+            "requirement-added"
+        }
+        _ => "repeated",
+    };
+    Some((q, name))
+}
+
+pub fn check_siblings(sb: &Siblings, cc: &mut CaseCtx) -> CheckResult {
+    let Ok(first) = sb.plan.build() else {
+        cc.class("unsignable");
+        return Ok(());
+    };
+    let judge = |case: &Case, what: &str, prev: &str| -> CheckResult {
+        let (a, o) = (analyze(case), exec::run(case));
+        if let exec::Res::Unrepresentable(_) = o.res {
+            return Ok(());
+        }
+        check_against_model(&a, &o).map_err(|f| {
+            if f.sig == "HARNESS" {
+                return f;
+            }
+            // the same case with nothing before it: is the history to blame?
+            let fresh = std::thread::scope(|s| s.spawn(|| check_against_model(&analyze(case), &exec::run(case)).is_ok()).join().unwrap_or(false));
+            let tag = if fresh { "history-dependent" } else { "sibling" };
+            let mut g = Failure::new(&format!("{}:{}:{}", tag, what, f.sig), format!("{} [{} -- after: {}]", f.msg, what, prev));
+            if super::c01::escape_plus_in_path(case).is_some() && f.sig.contains("rejected-valid") {
+                g = Failure::new(&format!("{}+literal-plus-in-path", g.sig), g.msg);
+            }
+            g
+        })
+    };
+    judge(&first.case, "original", "nothing")?;
+    let mut cur_plan = sb.plan.clone();
+    let mut cur = first;
+    let mut trail = vec!["original".to_string()];
+    let mut applied = 0;
+    for (kind, x, resign) in &sb.steps {
+        let Some((np, name)) = vary(&cur_plan, *kind, *x) else { continue };
+        let Ok(nb) = np.build() else { continue };
+        let mut case = nb.case.clone();
+        let label = if *resign {
+            format!("{}-signed-anew", name)
+        } else {
+            // the previous signature on the changed request (for a configuration change: the previous request as it was)
+            if !super::c01::replace_signature(&mut case.req, &nb.signed.signature, &cur.signed.signature) {
+                continue;
+            }
+            format!("{}-with-previous-signature", name)
+        };
+        judge(&case, &label, trail.last().unwrap())?;
+        cc.class(name);
+        cc.class(if *resign { "signed-anew" } else { "previous-signature" });
+        applied += 1;
+        trail.push(label);
+        if *resign {
+            cur_plan = np;
+            cur = nb;
+        }
+    }
+    if applied > 0 {
+        cc.nontrivial(digest_of(&[format!("{:?}", sb.steps).as_bytes(), &cur.case.req.digest().to_le_bytes()]));
+        cc.sample(json!({"request": format!("{} {}", sb.plan.logical.method, cur.case.req.uri.chars().take(80).collect::<String>()), "sequence": trail}));
+    }
+    Ok(())
 }
 
 #[derive(Clone, Debug, serde::Serialize, serde::Deserialize)]
 pub struct Interleave {
     pub steps: Vec<super::c14::Step>,
-    /// which of the in-flight validations is polled next (cycled)
+    /// which of the in-flight validations is polled next (cycled); values 8-11 mean: that one is DROPPED
+    /// unfinished instead (its caller gave up), at most once per position of the list
     pub order: Vec<u8>,
 }
 
@@ -60,6 +263,7 @@ pub fn check_interleave(il: &Interleave, cc: &mut CaseCtx) -> CheckResult {
     let alone: Vec<exec::Outcome> = cases.iter().map(exec::run).collect();
     let mut provs: Vec<exec::Prov> = cases.iter().map(|c| exec::Prov::new(c.prov.clone())).collect();
     let mut results: Vec<Option<exec::Res>> = vec![None; cases.len()];
+    let mut dropped = vec![false; cases.len()];
     let r = std::panic::catch_unwind(std::panic::AssertUnwindSafe(|| {
         let mut futs: Vec<Option<Pin<Box<dyn Future<Output = _> + '_>>>> = Vec::new();
         for ((c, p), (h, now)) in cases.iter().zip(provs.iter_mut()).zip(inputs.into_iter()) {
@@ -72,10 +276,17 @@ pub fn check_interleave(il: &Interleave, cc: &mut CaseCtx) -> CheckResult {
         let mut budget = 100_000;
         while futs.iter().any(|f| f.is_some()) && budget > 0 {
             budget -= 1;
-            let want = il.order[k % il.order.len()] as usize % futs.len();
+            let code = il.order[k % il.order.len()] as usize;
+            let want = code % futs.len();
+            let drop_it = code >= 8 && k < il.order.len();
             k += 1;
             // next unfinished validation at or after `want`
             let idx = (0..futs.len()).map(|d| (want + d) % futs.len()).find(|i| futs[*i].is_some()).unwrap();
+            if drop_it {
+                futs[idx] = None;
+                dropped[idx] = true;
+                continue;
+            }
             if let Poll::Ready(v) = futs[idx].as_mut().unwrap().as_mut().poll(&mut cx) {
                 results[idx] = Some(exec::convert_result(v));
                 futs[idx] = None;
@@ -88,6 +299,9 @@ pub fn check_interleave(il: &Interleave, cc: &mut CaseCtx) -> CheckResult {
     }
     let mut any_ok = false;
     for (i, res) in results.iter().enumerate() {
+        if dropped[i] {
+            continue;
+        }
         let Some(res) = res else { return Err(Failure::new("hang", "an interleaved validation did not complete")) };
         let same = match (res, &alone[i].res) {
             (exec::Res::Ok(a), exec::Res::Ok(b)) => a.uri == b.uri && a.body == b.body && a.headers == b.headers,
@@ -105,6 +319,7 @@ pub fn check_interleave(il: &Interleave, cc: &mut CaseCtx) -> CheckResult {
     cc.class("interleaved");
     cc.class_if(any_ok, "with-accepted-request");
     cc.class_if(cases.len() >= 3, ">=3-in-flight");
+    cc.class_if(dropped.iter().any(|d| *d), "with-a-validation-dropped-midway");
     cc.nontrivial(digest_of(&[format!("{:?}", il).as_bytes()]));
     if any_ok {
         cc.sample(json!({"in_flight": cases.len(), "poll_order": il.order, "outcomes": results.iter().map(|r| r.as_ref().map(|x| x.short().chars().take(60).collect::<String>())).collect::<Vec<_>>()}));
